@@ -1,6 +1,7 @@
 package kvql
 
 import (
+	"bytes"
 	"fmt"
 	"os"
 )
@@ -22,6 +23,9 @@ type ExecuteCtx struct {
 	FieldCaches         map[string]any
 	FieldChunkKeyCaches map[string][]any
 	FieldChunkCaches    map[string][]any
+	// The row that FieldCaches belongs to
+	fieldCachesKey   []byte
+	fieldCachesBound bool
 }
 
 func NewExecuteCtx() *ExecuteCtx {
@@ -32,6 +36,24 @@ func NewExecuteCtx() *ExecuteCtx {
 		FieldChunkKeyCaches: make(map[string][]any),
 		FieldChunkCaches:    make(map[string][]any),
 	}
+}
+
+// BindRow tells the context which row is evaluated now, cached field results
+// of any other row are dropped so they cannot leak into this row
+func (c *ExecuteCtx) BindRow(key []byte) {
+	if !c.EnableCache {
+		return
+	}
+	if c.fieldCachesBound && (key == nil) == (c.fieldCachesKey == nil) && bytes.Equal(key, c.fieldCachesKey) {
+		return
+	}
+	clear(c.FieldCaches)
+	if key == nil {
+		c.fieldCachesKey = nil
+	} else {
+		c.fieldCachesKey = append(make([]byte, 0, len(key)), key...)
+	}
+	c.fieldCachesBound = true
 }
 
 func (c *ExecuteCtx) GetFieldResult(name string) (any, bool) {
@@ -108,6 +130,8 @@ func (c *ExecuteCtx) Clear() {
 	clear(c.FieldCaches)
 	clear(c.FieldChunkCaches)
 	clear(c.FieldChunkKeyCaches)
+	c.fieldCachesKey = nil
+	c.fieldCachesBound = false
 }
 
 func (c *ExecuteCtx) AdjustChunkCache(chooseIdxes []int) {
